@@ -192,6 +192,10 @@ package bgp
 //@   modifies p.*
 //@   ensures err != nil ==> freshMsgErr(err)
 //@ func (*PathAttributeCommunities).DecodeFromBytes
+//@   tag C05 C06
+// from C06 / RFC 7606 7.8, 7.10, 7.14 (RFC 8092 5): the length is a NON-ZERO multiple of the element size - an empty
+// attribute of this kind is malformed
+//@   ensures err == nil ==> p.Length != 0
 //@   modifies p.*
 //@   loop 0 decreases len(value)
 //@   loop 0 invariant 4*(len(p.Value) - old(len(p.Value))) + len(value) == int(p.Length) && len(value) % 4 == 0
@@ -199,6 +203,10 @@ package bgp
 // from C04: decoding into an empty attribute leaves Length consistent with the content (what Serialize/Len rely on)
 //@   ensures err == nil && old(len(p.Value)) == 0 ==> lenFits(p.Flags, p.Length, 4*len(p.Value))
 //@ func (*PathAttributeClusterList).DecodeFromBytes
+//@   tag C05 C06
+// from C06 / RFC 7606 7.8, 7.10, 7.14 (RFC 8092 5): the length is a NON-ZERO multiple of the element size - an empty
+// attribute of this kind is malformed
+//@   ensures err == nil ==> p.Length != 0
 //@   modifies p.*
 //@   loop 0 decreases len(value)
 //@   ensures err != nil ==> freshMsgErr(err)
@@ -206,6 +214,10 @@ package bgp
 //@   modifies nothing
 //@   ensures result != nil && fresh(result)
 //@ func (*PathAttributeLargeCommunities).DecodeFromBytes
+//@   tag C05 C06
+// from C06 / RFC 7606 7.8, 7.10, 7.14 (RFC 8092 5): the length is a NON-ZERO multiple of the element size - an empty
+// attribute of this kind is malformed
+//@   ensures err == nil ==> p.Length != 0
 //@   modifies p.*
 //@   loop 0 decreases len(value)
 //@   ensures err != nil ==> freshMsgErr(err)
@@ -317,6 +329,10 @@ package bgp
 //@   ensures typeOf(result) == (*RouteDistinguisherUnknown) ==> len(result.(*RouteDistinguisherUnknown).Value) == 6 && (forall k int :: 0 <= k && k < 6 ==> result.(*RouteDistinguisherUnknown).Value[k] == data[2+k])
 
 //@ func (*LabeledIPAddrPrefix).decodeFromBytes
+//@   tag C05 C06
+// from C06 "no route is ever installed ... carrying an attribute that arrived malformed": a labelled-unicast NLRI
+// carries at least one label (RFC 8277 2.2); one without can never be sent on ("empty MPLS label stack")
+//@   at-call l.decodePrefix( requires len(l.Labels.Labels) > 0
 //@   modifies l.*
 //@   ensures err != nil ==> freshMsgErr(err)
 //@ func (*LabeledVPNIPAddrPrefix).decodeFromBytes
@@ -391,6 +407,10 @@ package bgp
 //@   assume-callee-frames
 //@   ensures result1 != nil ==> freshMsgErr(result1)
 //@ func (*PathAttributeExtendedCommunities).DecodeFromBytes
+//@   tag C05 C06
+// from C06 / RFC 7606 7.8, 7.10, 7.14 (RFC 8092 5): the length is a NON-ZERO multiple of the element size - an empty
+// attribute of this kind is malformed
+//@   ensures err == nil ==> p.Length != 0
 //@   modifies p.*
 //@   loop 0 decreases len(value)
 //@   ensures err != nil ==> freshMsgErr(err)
@@ -1113,3 +1133,13 @@ func verifRoundTripNextHop(a *PathAttributeNextHop) bool {
 //@ func (*CapGracefulRestart).Serialize
 //@   claims at-call
 //@   at-call ^binary.BigEndian.PutUint16(buf[0:] requires int(arg2) / 4096 == int(c.Flags) % 16
+
+// from C10 "what is read back equals what was configured" / "modifications ... as configured": the community a policy
+// attaches is the one its configuration text names - a local administrator that does not fit the 2-octet field of the
+// IPv4-address / IPv6-address / 4-octet-AS forms is refused, not narrowed to another value
+//@ props C10
+//@ func ParseExtendedCommunity
+//@   claims at-call
+//@   at-call NewIPv4AddressSpecificExtended( requires localAdmin <= 65535
+//@   at-call NewIPv6AddressSpecificExtended( requires localAdmin <= 65535
+//@   at-call NewFourOctetAsSpecificExtended( requires localAdmin <= 65535
